@@ -1,6 +1,6 @@
 import Mouette.Lemmas.SubdivSource4
 import Mouette.Lemmas.SubdivComponents5
-import Mouette.Lemmas.SubdivBorder2
+import Mouette.Lemmas.SubdivBorder3
 import Mouette.Lemmas.SubdivSource6
 import Mouette.Props.C13
 /-!
@@ -390,6 +390,24 @@ theorem border_loops_preserved_quads3_sub6 (m m' : Raw) (h3 : ∀ f ∈ m.faces,
     fun s t mu mt hw hl hlt => gen_loop_walk_lift m m' hb hes s t hw mu mt hl hlt,
     fun x y s t hw hs ht => gen_loop_walk_project m m' hb hes x y hw s t hs ht⟩
 
+/-- **border loops through the fan and the quad cut** (round 8): the border sides of the result ARE the border sides of the
+input (for the quad cut: when the diagonal is not already a side), so the successor relation along the border and the walks
+along it are literally the same: same border loops, same number, same lengths -/
+theorem border_loops_preserved_fan_quad_cut (m m' : Raw) :
+    (∀ fid, WF m → splitFaceAsFan m fid = .ok m' →
+      (∀ x, IsBorder m' x ↔ IsBorder m x) ∧ (∀ x y, IsSucc m' x y ↔ IsSucc m x y) ∧
+      (∀ x y, Relation.ReflTransGen (IsSucc m') x y ↔ Relation.ReflTransGen (IsSucc m) x y)) ∧
+    (∀ fid a b c d, m.faces[fid]? = some [a, b, c, d] → triangulateFace m fid = .ok m' → (b, d) ∉ dirSides m → (d, b) ∉ dirSides m →
+      (∀ x, IsBorder m' x ↔ IsBorder m x) ∧ (∀ x y, IsSucc m' x y ↔ IsSucc m x y) ∧
+      (∀ x y, Relation.ReflTransGen (IsSucc m') x y ↔ Relation.ReflTransGen (IsSucc m) x y)) := by
+  constructor
+  · intro fid hwf h
+    have hb := fan_border_eq m m' fid hwf h
+    exact ⟨hb, succ_of_border_eq m m' hb, walk_of_border_eq m m' hb⟩
+  · intro fid a b c d hf h h1 h2
+    have hb := quad_border_eq m m' fid a b c d hf h h1 h2
+    exact ⟨hb, succ_of_border_eq m m' hb, walk_of_border_eq m m' hb⟩
+
 /-- the same three facts on the body translated from the source -/
 theorem quads3_source (m m' : Raw) (h3 : ∀ f ∈ m.faces, f.length = 3) (hes : EdgesSorted m) (ho : OrientedSides m)
     (h : C13Src.quads3 m = .ok m') : OrientedSides m' ∧ CompPres m m' := by
@@ -429,6 +447,9 @@ example : (∀ f ∈ witnessMesh.faces, f.length = 3) ∧ EdgesSorted witnessMes
 example : SharesAtMostOne witnessMesh := by decide
 -- 1→6 on the two-triangle witness: the criterion of `manifold_preserved_sub6_partial` holds, the result is oriented
 example : ∃ m', sub6 witnessMesh 1 = .ok m' ∧ (dirSides m').length = 36 ∧ OrientedSides m' := ⟨_, rfl, by decide, by decide⟩
+-- the pentagon has a border loop of five sides, before and after the fan
+example : IsBorder pentagon (0, 1) ∧ ∃ m', splitFaceAsFan pentagon 0 = .ok m' ∧ (0, 1) ∈ dirSides m' ∧ (1, 0) ∉ dirSides m' :=
+  ⟨⟨by decide, by decide⟩, _, rfl, by decide, by decide⟩
 -- the quad cut on a regular complex: the hypotheses of `manifold_preserved_quad_cut` are satisfiable
 example : ∃ m', triangulateFace ⟨[(0,0,0),(1,0,0),(1,1,0),(0,1,0)], [(0,1),(1,2),(2,3),(0,3)], [[0,1,2,3]], []⟩ 0 = .ok m' ∧
     m'.faces = [[0,1,3],[1,2,3]] ∧ (1, 3) ∉ dirSides ⟨[], [], [[0,1,2,3]], []⟩ ∧ (3, 1) ∉ dirSides ⟨[], [], [[0,1,2,3]], []⟩ :=
